@@ -724,7 +724,6 @@ def audit_items(B, tier, rs):
     containers / dtypes / options, histories on one object, random voxel solids, extreme densities."""
     big = tier == "thorough"
     shapes = named_shapes(tier)
-    pts3 = [list(p) for p in itertools.product(range(3), repeat=3)]
 
     def tets(n, hi=4, lo=0):
         P = rs.randint(lo, hi, size=(n, 4, 3))
